@@ -595,7 +595,7 @@ func TestVerif_C24(t *testing.T) {
 		shape := noiseShapes[x.Choose(len(noiseShapes), "shape")]
 		var elems []vfC24Elem
 		for i, n := range shape {
-			elems = append(elems, vfC24ChooseElem(x, n, noiseKinds, venum.QT(0, 6), fmt.Sprintf("e%d", i)))
+			elems = append(elems, vfC24ChooseElem(x, n, noiseKinds, venum.QT(0, 2), fmt.Sprintf("e%d", i)))
 		}
 		base := vfC24Header(elems)
 		pos := x.Choose(len(base)+1, "pos")
